@@ -231,13 +231,14 @@ def run_path(path, value, lang):
         from .real import orq_requests
         P(9)
         try:
-            c.request_workflow_rerun([orq_requests.TaskRerunRequest.new("t4", 0)])
+            # (the first terminal task, which saw the initial context only, and the join)
+            c.request_workflow_rerun([orq_requests.TaskRerunRequest.new("t0", 0), orq_requests.TaskRerunRequest.new("t4", 0)])
             P(10)
             for t in c.get_next_tasks():
                 tail.append(["rerun_offer", t["id"], tag({k: v for k, v in t["ctx"].items() if not k.startswith("__")}),
                              tag([a.get("input") for a in t["actions"]])])
                 c.update_task_state(t["id"], t["route"], events.ActionExecutionEvent(statuses.RUNNING))
-                c.update_task_state(t["id"], t["route"], events.ActionExecutionEvent(statuses.SUCCEEDED, result="r4b"))
+                c.update_task_state(t["id"], t["route"], events.ActionExecutionEvent(statuses.SUCCEEDED, result="r_again"))
             P(11)
             c.render_workflow_output()
             tail.append(["status", c.get_workflow_status()])
